@@ -148,6 +148,56 @@ def scev_bounds(llpath):
     return res
 
 
+# start-bit rule: the digit-by-digit algorithm must start from the largest power of four the type holds, 2^((digits-1) & ~1):
+# lower and every operand above 2^(start+2) gets a wrong root, higher/odd and the first shift leaves the type or is not a
+# power of four.  Built-in reps: the constant entering the first loop's carried value; multi-word reps: the constant
+# count of the first operator<< call of sqrt<Integer> (call-site constant, -O1 -fno-inline).
+WIDE = [("cnl::wide_integer<129, unsigned>", 129), ("cnl::wide_integer<191, int>", 191), ("cnl::wide_integer<200, unsigned>", 200),
+        ("cnl::wide_integer<256, unsigned>", 256), ("cnl::wide_integer<300, int>", 300), ("cnl::wide_integer<1000, unsigned>", 1000)]
+
+
+def start_bit_builtin(fn, digits):
+    """the first phi of the function with a constant incoming from the entry block"""
+    entry = fn.order[0]
+    for lab in fn.order:
+        for l in fn.blocks[lab]:
+            m = re.match(r"^(%\S+)\s*=\s*phi (i\d+) (.*)$", l)
+            if m:
+                for v, b in re.findall(r"\[\s*([^,\]]+),\s*%([^\s\]]+)\s*\]", m.group(3)):
+                    if re.fullmatch(r"-?\d+", v.strip()):
+                        c = int(v) % (1 << int(m.group(2)[1:]))
+                        return c
+    return None
+
+
+def start_bit_wide(mod, dem, entry):
+    """(count constant, sqrt instantiation) of the first operator<< call in the cnl::sqrt instantiation `entry` calls"""
+    f0 = mod.functions[entry]
+    callee = None
+    for lab in f0.order:
+        for l in f0.blocks[lab]:
+            m = re.search(r"call [^@]*@([\w.$]+)\(", l)
+            if m and dem.get(m.group(1), "").startswith("auto cnl::sqrt<"):
+                callee = m.group(1)
+    if callee is None or callee not in mod.functions:
+        return None, None
+    fn = mod.functions[callee]
+    lines = [l for lab in fn.order for l in fn.blocks[lab]]
+    for i, l in enumerate(lines):
+        m = re.search(r"call [^@]*@([\w.$]+)\((.*)\)", l)
+        if m and dem.get(m.group(1), "").startswith("auto cnl::_impl::operator<<"):
+            args = [a.strip().split(" ")[-1] for a in ir._split_top(m.group(2))]
+            cnt = args[-1]
+            for back in reversed(lines[:i]):
+                ms = re.match(r"^store i32 (-?\d+), i32\* %s\b" % re.escape(cnt), back)
+                if ms:
+                    return int(ms.group(1)), dem[callee]
+                if re.match(r"^store \S+ %\S+, i32\* %s\b" % re.escape(cnt), back):
+                    return None, dem[callee]
+            return None, dem[callee]
+    return None, dem[callee]
+
+
 def run(tier, seed, work):
     r = report.Run(PROP, tier, seed, "other")
     F = gen_facts(tier)
@@ -210,6 +260,38 @@ def run(tier, seed, work):
                 samples.append({"rep": T.short, "loop": h, "ranking": why})
             else:
                 r.violation("loop/%s/%s" % (T.short, h), "cnl::sqrt<%s>: loop %s has neither a scalar-evolution bound nor the shift ranking function (%s): termination not established" % (T.name, h, why), {"ir": txt})
+    # start-bit rule
+    nstart = 0
+    for T in REPS:
+        fn = mod.functions.get("sq_" + T.short)
+        if fn is None:
+            continue
+        c = start_bit_builtin(fn, T.digits)
+        want = 1 << ((T.digits - 1) & ~1)
+        if c is None:
+            r.broke("cnl::sqrt<%s>: the constant entering the first loop was not found" % T.name)
+        elif c != want:
+            r.violation("start-bit/" + T.short, "cnl::sqrt<%s>: the algorithm starts from %d (2^%s) instead of the largest power of four of the type, 2^%d" % (T.name, c, c.bit_length() - 1 if c & (c - 1) == 0 else "?", (T.digits - 1) & ~1), {"ir": fn.text()})
+        else:
+            nstart += 1
+    wsrc = tc.PRELUDE["clang"] + "using namespace cnl;\n" + "".join('extern "C" void sw_%d(%s const& x, %s* o) { *o = cnl::sqrt(x); }\n' % (i, t, t) for i, (t, d) in enumerate(WIDE))
+    wp, wout = os.path.join(work, "sw.cpp"), os.path.join(work, "sw.ll")
+    open(wp, "w").write(wsrc)
+    rc, so, se, cmd = tc.clang_ll(wp, wout, "o1ni")
+    if rc != 0:
+        raise tc.AnalysisBroken("wide sqrt TU does not compile: " + se[:1500])
+    wmod = ir.parse_module(open(wout).read())
+    wdem = tc.demangle(list(wmod.functions) + [d[1:] for d in wmod.declares])
+    for i, (t, d) in enumerate(WIDE):
+        c, inst = start_bit_wide(wmod, wdem, "sw_%d" % i)
+        want = (d - 1) & ~1
+        if c is None:
+            r.broke("cnl::sqrt<%s>: the count of the first shift was not found as a call-site constant (%s)" % (t, inst))
+        elif c != want:
+            r.violation("start-bit/" + t, "cnl::sqrt<%s>: the algorithm starts from bit %d instead of %d, the largest even position of a %d-digit type: roots of operands above 2^%d are wrong" % (t, c, want, d, c + 2), {"instantiation": inst})
+        else:
+            nstart += 1
+    common.floor_check(r, "start-bit instances", nstart, len(REPS) + len(WIDE))
     cf = mod.functions.get("sq_control")
     if cf is not None:
         crr = ranking_rule(cf)
@@ -220,10 +302,10 @@ def run(tier, seed, work):
     common.floor_check(r, "odd-exponent witnesses rejected", nw, 5)
     common.floor_check(r, "loops with an established bound/ranking", nbounded + nranked, 16)
     r.coverage = {
-        "explanation": "Result-type facts, compile-fail witnesses for odd exponents, termination of both loops for every rep (scalar evolution or the shift ranking rule), absence of out-of-range shifts. That the root is floor(sqrt(x)) is NOT decided.",
+        "explanation": "Result-type facts, compile-fail witnesses for odd exponents, termination of both loops for every rep (scalar evolution or the shift ranking rule), absence of out-of-range shifts, and the start-bit rule (the algorithm starts from the largest power of four of the type, for built-in and multi-word reps). That the root is floor(sqrt(x)) is NOT decided.",
         "evaluations": len(F) + len(W) + nloops, "distinct_nontrivial": nf["proved"] + nw + nbounded + nranked,
         "rule": "non-trivial = proved type fact, rejected witness, loop with an established termination argument",
-        "type_facts": len(F), "type_facts_proved": nf["proved"], "witnesses_rejected": nw, "loops": nloops, "loops_scev_bounded": nbounded, "loops_ranked": nranked,
+        "type_facts": len(F), "type_facts_proved": nf["proved"], "witnesses_rejected": nw, "loops": nloops, "loops_scev_bounded": nbounded, "loops_ranked": nranked, "start_bit_instances": nstart,
         "samples": samples[:8], "exhaustive": False,
     }
     r.assumptions = ["x >= 0 (the function's own precondition)"]
